@@ -143,11 +143,28 @@ func main() {
 	}
 	shards = append(shards, pool.Shard{Kind: "pw", Arg: pwShard{Mode: "script", Quick: quick}}, pool.Shard{Kind: "pw", Arg: pwShard{Mode: "encode", Quick: quick}})
 
+	if only := os.Getenv("VERIF_C14_ONLY"); only != "" {
+		var keep []pool.Shard
+		for _, sh := range shards {
+			b, _ := json.Marshal(sh.Arg)
+			tag := sh.Kind + " " + string(b)
+			for _, o := range strings.Split(only, ";") {
+				if strings.Contains(tag, o) {
+					keep = append(keep, sh)
+					break
+				}
+			}
+		}
+		shards = keep
+	}
 	// long shards first (better balance)
 	sort.SliceStable(shards, func(i, j int) bool { return shardWeight(shards[i]) > shardWeight(shards[j]) })
 
 	var total, calls int64
 	famCount := map[string]int64{}
+	famMs := map[string]int64{}
+	var slowest int64
+	slowestFam := ""
 	outcomes := map[string]int64{}
 	samples := 0
 	pool.Run(shards, pool.Options{}, func(si int, rb json.RawMessage) {
@@ -158,6 +175,10 @@ func main() {
 			total += r.N
 			calls += r.Calls
 			famCount[r.Fam] += r.N
+			famMs[r.Fam] += r.Ms
+			if r.Ms > slowest {
+				slowest, slowestFam = r.Ms, r.Fam
+			}
 			for k, v := range r.Outcome {
 				outcomes[k] += v
 			}
@@ -192,6 +213,8 @@ func main() {
 		}
 	}
 	c.Set("family_counts", famCount)
+	c.Set("family_cpu_ms", famMs)
+	c.Set("slowest_shard", fmt.Sprintf("%d ms: %s", slowest, slowestFam))
 	c.Set("outcome_case_counts", outcomes)
 	c.Set("value_trees", nTrees)
 	c.Set("builtin_calls", calls)
